@@ -67,6 +67,8 @@ type Report struct {
 	Transitions     int
 	UnknownBranches int
 	AssertQ         [3]int
+	AssertSyntactic int
+	AssertBatched   int
 	AssertsSeen     map[string]int
 	Violations      []*Violation
 	Reached         map[string]bool
@@ -80,8 +82,8 @@ type Report struct {
 	Truncated       bool
 	Internal        []string
 
-	expInv     map[*Term]*Term
-	vioSeen    map[string]int
+	expInv  map[*Term]*Term
+	vioSeen map[string]int
 }
 
 func newReport(cfg *HarnessCfg) *Report {
@@ -135,40 +137,118 @@ func (r *Report) addViolation(it *Interp, label, msg string, extra []*Term) {
 	r.Violations = append(r.Violations, v)
 }
 
-// assert checks a harness assertion on the current path.
+type pendingAssert struct {
+	n     int // length of the path condition when the assertion was reached
+	cond  *Term
+	label string
+}
+
+func (it *Interp) recordViolation(label, msg string, m Model) {
+	r := it.rep
+	r.vioSeen[label]++
+	if r.vioSeen[label] > 2 {
+		return
+	}
+	v := &Violation{Harness: r.Cfg.Name, Label: label, Msg: msg, Model: map[string]ModelVal{}, MapRev: it.mapOrderRev, Notes: append([]string{}, it.pathNotes...)}
+	for _, in := range it.inputs {
+		if cv, ok := m[in.Name]; ok && cv != nil {
+			v.Model[in.Name] = modelVal(cv, it.inputMeta[in.Name])
+		}
+	}
+	r.Violations = append(r.Violations, v)
+}
+
+// assert records a harness assertion. Assertions that are not decided syntactically (term identity, known
+// literals, intervals) are collected and discharged together at the end of the path by one query
+// OR_i (pc_i AND NOT c_i); the path continues under the assumption that the assertion holds.
 func (it *Interp) assert(c *Term, label string) {
 	r := it.rep
 	r.AssertsSeen[label]++
 	if v, ok := it.lookupKnown(c); ok && v {
+		r.AssertSyntactic++
 		return
 	}
 	if v, ok := it.intervalDecide(c); ok && v {
+		r.AssertSyntactic++
 		return
 	}
-	nc := it.tb.Not(c)
-	lits := append(append([]*Term{}, it.pc...), nc)
-	res, m := it.sv.Check(it.tb, lits, it.inputs)
-	r.AssertQ[res]++
-	switch res {
-	case Unsat:
-	case Sat:
-		r.vioSeen[label]++
-		if r.vioSeen[label] <= 2 {
-			v := &Violation{Harness: r.Cfg.Name, Label: label, Msg: "assertion can fail", Model: map[string]ModelVal{}, MapRev: it.mapOrderRev, Notes: append([]string{}, it.pathNotes...)}
-			for _, in := range it.inputs {
-				if cv, ok := m[in.Name]; ok && cv != nil {
-					v.Model[in.Name] = modelVal(cv, it.inputMeta[in.Name])
-				}
-			}
-			r.Violations = append(r.Violations, v)
-		}
-	case Unknown:
-		r.Inconclusive["assert "+label+": solver unknown"]++
+	if v, have := it.evalModel(c); have && !v {
+		// the cached model satisfies the path condition and falsifies the assertion
+		r.AssertQ[Sat]++
+		it.recordViolation(label, "assertion can fail", it.model)
+	} else {
+		it.pending = append(it.pending, pendingAssert{n: len(it.pc), cond: c, label: label})
 	}
 	if c.IsConst() && !c.B {
 		panic(pathEnd{"killed", "assertion failed concretely"})
 	}
 	it.addPC(c)
+}
+
+// flushAsserts discharges the pending assertions of the path.
+func (it *Interp) flushAsserts() {
+	if len(it.pending) == 0 {
+		return
+	}
+	tb := it.tb
+	r := it.rep
+	pend := it.pending
+	it.pending = nil
+	// prefix conjunctions are shared: P_k = and(P_{k-1}, pc[k-1])
+	var disj *Term = tb.False
+	prefix := tb.True
+	k := 0
+	cases := make([]*Term, len(pend))
+	for i, p := range pend {
+		for k < p.n {
+			prefix = tb.And(prefix, it.pc[k])
+			k++
+		}
+		cases[i] = tb.And(prefix, tb.Not(p.cond))
+		disj = tb.Or(disj, cases[i])
+	}
+	if disj.IsConst() && !disj.B {
+		r.AssertSyntactic += len(pend)
+		return
+	}
+	vars := it.allVars([]*Term{disj})
+	res, m := it.sv.Check(tb, []*Term{disj}, vars)
+	r.AssertQ[res]++
+	r.AssertBatched += len(pend)
+	switch res {
+	case Unsat:
+	case Sat:
+		memo := map[*Term]*Term{}
+		found := false
+		for i, p := range pend {
+			if v := tb.Eval(cases[i], m, memo); v != nil && v.IsConst() && v.B {
+				it.recordViolation(p.label, "assertion can fail", m)
+				found = true
+				break
+			}
+		}
+		if !found {
+			// model incomplete for evaluation: isolate with individual queries
+			it.flushIndividually(pend, cases)
+		}
+	case Unknown:
+		it.flushIndividually(pend, cases)
+	}
+}
+
+func (it *Interp) flushIndividually(pend []pendingAssert, cases []*Term) {
+	r := it.rep
+	for i, p := range pend {
+		res, m := it.sv.Check(it.tb, []*Term{cases[i]}, it.allVars([]*Term{cases[i]}))
+		r.AssertQ[res]++
+		switch res {
+		case Sat:
+			it.recordViolation(p.label, "assertion can fail", m)
+			return
+		case Unknown:
+			r.Inconclusive["assert "+p.label+": solver unknown"]++
+		}
+	}
 }
 
 // assertNearSplit decides |x-y| <= eps(1+|x|+|y|) over the reals by case-splitting the absolute values
